@@ -17,7 +17,7 @@ from concurrent.futures import ThreadPoolExecutor
 VERIF = "/verif"
 COQ = os.path.join(VERIF, "coq")
 RUN = os.path.join(COQ, "Run")
-REPO = "/repo"
+REPO = os.environ.get("VERIF_REPO", "/repo")   # override only for scratch-worktree experiments
 EVID = os.path.join(VERIF, "evidence")
 REPLAYS = os.path.join(VERIF, "replays")
 KNOWN = os.path.join(VERIF, "known_findings.json")
